@@ -152,7 +152,7 @@ class ETr:
     """
 
     def __init__(self, schema, params=None, ext=None, draw=None, keys=(), methods=None, effects=(), loops=(),
-                 ignore_calls=('print', 'self.dprint'), key_exprs=(), draws=None, strings=None):
+                 ignore_calls=('print', 'self.dprint'), key_exprs=(), draws=None, strings=None, consts=None):
         self.schema = schema
         self.scope = dict(params or {})          # local/param name -> type
         self.ext = dict(ext or {})
@@ -161,6 +161,7 @@ class ETr:
             self.draws[draw[0]] = draw[1]
         self.drawn = set()                        # draws consumed on the current path
         self.strings = dict(strings or {})        # string literal -> int code (e.g. colours)
+        self.consts = dict(consts or {})          # python expression text -> literal (class constants such as `self.MIN_QUANTUM`)
         self.yield_index = {}                     # id(yield statement) -> number (source order), set by `emit_generator`
         self.after = {}                           # yield number -> the statements that follow it (its continuation)
         self.poison_at = {}                       # yield number -> locals bound when it suspends (stale afterwards)
@@ -240,6 +241,8 @@ class ETr:
         if key in self.narrow:
             t, ty = self.narrow[key]
             return t, ty, []
+        if key in self.consts:
+            return self.const(e, self.consts[key])
         if key in self.draws:
             if key in self.drawn:
                 fail(e, f'a second `{key}` on one path (the model hands out one such input per burst)')
